@@ -110,6 +110,119 @@ check_back(IMB_JOB *r)
                      (long) o, k);
         }
 }
+
+/* (c) user-supplied (CUSTOM) stages: a callback that reports failure must end the job with exactly IMB_STATUS_INTERNAL_ERROR,
+ * whichever stage it is and whatever ran (or is parked) before it; a succeeding callback ends with COMPLETED; every callback
+ * is invoked at most once and not at all after an earlier stage failed. */
+static int cb_calls[2], cb_fail[2];
+static int
+cb_cipher(IMB_JOB *j)
+{
+        (void) j;
+        cb_calls[0]++;
+        return cb_fail[0];
+}
+static int
+cb_hash(IMB_JOB *j)
+{
+        (void) j;
+        cb_calls[1]++;
+        return cb_fail[1];
+}
+static void
+custom_variant(long v, void *arg)
+{
+        (void) arg;
+        g_v = (int) v;
+        A = NULL;
+        g_dir = 1;
+        if (!variant_usable(g_v))
+                return;
+        m = mgr_new(g_v);
+        KS = keyset_new(m, 71);
+        const int acbc = alg_id("aes-cbc-128"), ahmac = alg_id("hmac-sha1"), asha = alg_id("sha256");
+        /* stage kinds: 0 CUSTOM failing, 1 CUSTOM succeeding, 2 NULL, 3 a real algorithm that parks (cipher: AES-CBC encrypt, hash: HMAC-SHA-1),
+         * 4 (hash only) plain SHA-256 */
+        for (int ck = 0; ck < 4; ck++)
+                for (int hk = 0; hk < 5; hk++)
+                        for (int order = 1; order <= 2; order++)
+                                for (int prepark = 0; prepark < 2; prepark++) {
+                                        if (ck > 1 && hk > 1)
+                                                continue; /* no CUSTOM stage */
+                                        /* optionally park an ordinary HMAC-SHA-1 job first so that the lane manager is not empty */
+                                        if (prepark) {
+                                                IMB_JOB *pj = X_GET_NEXT(m);
+                                                item_t pit;
+                                                g_a = ahmac;
+                                                A = &ALGS[g_a];
+                                                mk(&pit, 1, 80);
+                                                alg_fill(m, pj, &pit);
+                                                pj->user_data = (void *) 50;
+                                                (void) X_SUBMIT(m);
+                                        }
+                                        g_a = acbc;
+                                        A = &ALGS[g_a];
+                                        item_t it;
+                                        mk(&it, 0, 64);
+                                        it.alg2 = hk == 4 ? asha : ahmac;
+                                        it.hoff = 0;
+                                        it.hlen = 64;
+                                        IMB_JOB *j = X_GET_NEXT(m);
+                                        alg_fill(m, j, &it);
+                                        j->chain_order = (IMB_CHAIN_ORDER) order;
+                                        j->cipher_func = cb_cipher;
+                                        j->hash_func = cb_hash;
+                                        if (ck <= 1)
+                                                j->cipher_mode = IMB_CIPHER_CUSTOM;
+                                        else if (ck == 2)
+                                                j->cipher_mode = IMB_CIPHER_NULL;
+                                        if (hk <= 1)
+                                                j->hash_alg = IMB_AUTH_CUSTOM;
+                                        else if (hk == 2)
+                                                j->hash_alg = IMB_AUTH_NULL;
+                                        cb_fail[0] = ck == 0;
+                                        cb_fail[1] = hk == 0;
+                                        cb_calls[0] = cb_calls[1] = 0;
+                                        j->user_data = (void *) 77;
+                                        IMB_JOB *r = X_SUBMIT(m);
+                                        int e = imb_get_errno(m), got = 0, st = -1;
+                                        while (r) {
+                                                if (r->user_data == (void *) 77) {
+                                                        got++;
+                                                        st = (int) r->status;
+                                                }
+                                                r = X_GET_COMPLETED(m);
+                                        }
+                                        while ((r = X_FLUSH(m)) != NULL)
+                                                if (r->user_data == (void *) 77) {
+                                                        got++;
+                                                        st = (int) r->status;
+                                                }
+                                        n_eval++;
+                                        long code = ck * 1000 + hk * 100 + order * 10 + prepark;
+                                        if (e) {
+                                                viol("custom-job-rejected", "job with a CUSTOM stage rejected (x = cipher kind*1000 + hash kind*100 + order*10 + prepark, y = errno)", code, e);
+                                                continue;
+                                        }
+                                        if (got != 1)
+                                                viol("custom-not-exactly-once", "job with a CUSTOM stage not handed back exactly once", code, got);
+                                        int first_is_cipher = order == IMB_ORDER_CIPHER_HASH;
+                                        int first_fails = first_is_cipher ? ck == 0 : hk == 0;
+                                        int any_fail = ck == 0 || hk == 0;
+                                        int want = any_fail ? IMB_STATUS_INTERNAL_ERROR : IMB_STATUS_COMPLETED;
+                                        if (st != want)
+                                                viol("status", "job with a CUSTOM stage handed back with a status that is neither exactly COMPLETED nor exactly INTERNAL_ERROR as its callbacks dictate (x = case, y = status)",
+                                                     code, st);
+                                        if (cb_calls[0] > 1 || cb_calls[1] > 1)
+                                                viol("custom-called-twice", "a CUSTOM callback was invoked more than once for one job", code, cb_calls[0] * 10 + cb_calls[1]);
+                                        if (first_fails && (first_is_cipher ? cb_calls[1] : cb_calls[0]))
+                                                viol("custom-stage-after-failure", "second stage callback invoked although the first stage reported failure", code, 0);
+                                }
+        stat_add("evaluations", n_eval);
+        stat_add("distinct_nontrivial", n_eval);
+        n_eval = 0;
+        free_mb_mgr(m);
+}
 static void
 run_alg_variant(long item, void *arg)
 {
@@ -180,6 +293,9 @@ crashed(long item, int sig, void *arg)
         if (!arg) {
                 rec_s("alg", ALGS[item / NVARIANTS].name);
                 rec_s("variant", VARIANTS[item % NVARIANTS].name);
+        } else if (arg == (void *) 2) {
+                rec_s("alg", "custom-stages");
+                rec_s("variant", VARIANTS[item].name);
         } else {
                 rec_s("alg", "imb_get_strerror");
                 rec_i("partition", item);
@@ -224,6 +340,7 @@ main(void)
         region_t R = region_new(1);
         alg_set_poison(R.base - 2048);
         par_run((long) NALGS * NVARIANTS, n_workers(), run_alg_variant, crashed, NULL, 600);
+        par_run(NVARIANTS, n_workers(), custom_variant, crashed, (void *) 2, 600);
         A = NULL;
         g_v = 0;
         if (tier_thorough())
